@@ -1368,17 +1368,34 @@ def gen_space(rng, ndim):
     return odl.uniform_discr(lo, hi, shape), lo, hi, shape
 
 
-def factory_case(ctx, which, ndim, lines, cases):
+Z_PATTERNS = ['below>above', 'above>below', 'touch-from-below', 'touch-from-above',
+              'entirely-below', 'entirely-above']
+
+
+def factory_case(ctx, which, ndim, lines, cases, far=None):
+    """far = one of Z_PATTERNS: cone-beam 3d case with the source far from the volume
+    (src_radius >= 4 rho) and a volume of height <= rho placed asymmetrically along the axis;
+    there the detector the code builds does cover the neighbourhood of the rotation axis."""
     import odl
     rng = ctx.rng
     space, lo, hi, shape = gen_space(rng, ndim)
+    if far is not None:
+        rho0 = float(np.hypot(max(abs(lo[0]), abs(hi[0])), max(abs(lo[1]), abs(hi[1]))))
+        a = round(rng.uniform(0.5, 1.0) * rho0, 1)
+        b = round(rng.uniform(0.1, 0.4) * rho0, 1)
+        lo[2], hi[2] = {'below>above': (-a, b), 'above>below': (-b, a),
+                        'touch-from-below': (-a, 0.0), 'touch-from-above': (0.0, a),
+                        'entirely-below': (-a, -b), 'entirely-above': (b, a)}[far]
+        space = odl.uniform_discr(lo, hi, shape)
     corners = np.asarray(space.domain.corners(), dtype=float)
     rho = float(np.max(np.linalg.norm(corners[:, :2], axis=1)))
     desc = {'kind': 'factory', 'which': which, 'lo': lo, 'hi': hi, 'shape': shape}
+    if far is not None:
+        desc['zpattern'] = far
     if which == 'parallel':
         st, g = guarded(lambda: odl.tomo.parallel_beam_geometry(space))
     else:
-        rs = round(rho * rng.uniform(1.15, 4.0), 2)
+        rs = round(rho * (rng.uniform(1.15, 4.0) if far is None else rng.uniform(4.0, 8.0)), 2)
         rd = round(rng.uniform(0.0, 5.0), 2)
         desc.update(rs=rs, rd=rd)
         if which == 'cone':
@@ -1391,8 +1408,8 @@ def factory_case(ctx, which, ndim, lines, cases):
             st, g = guarded(lambda: odl.tomo.helical_geometry(space, rs, rd, num_turns=nt))
     name = {'parallel': 'parallel_beam_geometry', 'cone': 'cone_beam_geometry',
             'helical': 'helical_geometry'}[which]
-    ctx.case((which, ndim, 'factory'))
-    ctx.hit('factory/{}/{}d'.format(which, ndim))
+    ctx.case((which, ndim, 'factory', far))
+    ctx.hit('factory/{}/{}d{}'.format(which, ndim, '' if far is None else '/z-' + far))
     key = 'factory {} ndim={}'.format(name, ndim)
     if st != 'ok':
         ctx.violation(key + ' raises', st, desc)
@@ -1443,6 +1460,47 @@ def factory_case(ctx, which, ndim, lines, cases):
                                   'detector edge {}'.format(u[0], dmax[0]), desc)
         cases.append((desc, float(dmax[0]), float(-dmin[0]), hw, None))
         if which == 'cone' and ndim == 3:
+            # the detector is origin-centred and the scan symmetric under z -> -z: the mirrored
+            # volume must get a detector of the same height (and pixel count)
+            mlo, mhi = list(lo), list(hi)
+            mlo[2], mhi[2] = -hi[2], -lo[2]
+            stm, gm = guarded(lambda: odl.tomo.cone_beam_geometry(
+                odl.uniform_discr(mlo, mhi, shape), desc['rs'], desc['rd'],
+                short_scan=desc.get('short_scan', False)))
+            if stm != 'ok':
+                ctx.violation(key + ' mirror symmetry z', 'volume z in [{}, {}] works but the mirrored '
+                              'volume raises {}'.format(lo[2], hi[2], stm), desc)
+            else:
+                m_min = np.asarray(gm.det_params.min_pt, dtype=float)
+                m_max = np.asarray(gm.det_params.max_pt, dtype=float)
+                if not (close(m_min, dmin, 1e-12 * (1 + dmax[1])) and close(m_max, dmax, 1e-12 * (1 + dmax[1]))
+                        and gm.det_partition.shape == g.det_partition.shape):
+                    ctx.violation(key + ' mirror symmetry z', 'volume z in [{}, {}]: detector {}..{} ({} px) '
+                                  'but the volume mirrored in z gets {}..{} ({} px)'.format(
+                                      lo[2], hi[2], dmin.tolist(), dmax.tolist(), g.det_partition.shape,
+                                      m_min.tolist(), m_max.tolist(), gm.det_partition.shape), desc)
+            if far is not None:
+                # far source, flat volume: the rotation axis and the cylinder of radius rho/4
+                # around it are covered vertically at the bottom and top faces, for every angle
+                rc = rho / 4
+                pts = []
+                for z in (lo[2], hi[2]):
+                    pts.append((0.0, 0.0, z))
+                    for al in np.linspace(0, PI2, 8, endpoint=False):
+                        pts.append((rc * math.cos(al), rc * math.sin(al), z))
+                wv, wc = 0.0, None
+                for a in pick:
+                    for q in pts:
+                        u = project(g, float(a), np.array(q))
+                        over = max(u[1] - dmax[1], dmin[1] - u[1]) / ext[1]
+                        if over > wv:
+                            wv, wc = over, (float(a), q, u.tolist())
+                if wv > 1e-9:
+                    ctx.violation(key + ' central-cylinder vertical cover', 'z pattern {}: point {} of the '
+                                  'volume (z in [{}, {}]) at angle {} is seen at detector coordinate {} '
+                                  'outside {}..{} (by {:.3g} of the height)'.format(
+                                      far, wc[1], lo[2], hi[2], wc[0], wc[2], dmin.tolist(), dmax.tolist(), wv), desc)
+        if which == 'cone' and ndim == 3:
             # vertical extent as the code computes it: 2*sin(arctan(zmax/dist))*(rs+rd), rounded up
             # to a whole number of pixels of size min_mag*cell_side
             zmax = max(abs(lo[2]), abs(hi[2]))
@@ -1472,6 +1530,10 @@ def run_factories(ctx):
     for which, ndim in (('parallel', 2), ('parallel', 3), ('cone', 2), ('cone', 3), ('helical', 3)):
         for _ in range(n):
             factory_case(ctx, which, ndim, lines, cases)
+    # volumes placed asymmetrically along the rotation axis (every pattern in every run)
+    for rep in range(1 if ctx.quick else 4):
+        for pat in Z_PATTERNS:
+            factory_case(ctx, 'cone', 3, lines, cases, far=pat)
     outs = core.run_driver('C19', lines)
     for (desc, hmax, hmin, hw, delta), ans in zip(cases, outs):
         if delta is None:
